@@ -5,6 +5,7 @@
   (Gen/Report.lean, Gen/Funcs.lean); the theorems below are about those generated objects.
 -/
 import GHEVerif.Model.Report
+import GHEVerif.Lemmas.Report
 import GHEVerif.Lemmas.Search
 import GHEVerif.Props.C01
 
@@ -15,7 +16,7 @@ open GHEVerif GHEVerif.Search GHEVerif.Report
     objective is "assign h, simulate, cost, return" — as regenerated from the source. -/
 theorem size_statements :
     Gen.sizeOps = [.setMid, .solve, .setReturned, .simulate] ∧
-    Gen.objectiveOps = [.setH, .simulate, .cost, .ret] := by decide
+    Gen.objectiveOps = [.setH, .simulate, .cost, .ret] := size_statements'
 
 /-- The substantive one: whatever the excess function, the bracket, Brent's iterates and answer —
     bracketed root, clamp at minimum height, clamp at maximum height — after `GHE.size` the
@@ -25,16 +26,8 @@ theorem size_statements :
 theorem reported_temps_at_reported_height (f : Rat → Rat) (lo hi : Rat) (its : List Rat) (brent : Rat)
     (st st' : GState) (h : size f lo hi its brent st = .ok st') :
     st'.simAt = some st'.H ∧
-      ∃ kind, solveRoot ((hi + lo) / 2) f lo hi brent = .ok (kind, st'.H) := by
-  unfold size at h
-  rw [size_statements.1, size_statements.2] at h
-  simp only [runSize] at h
-  cases hs : solveRoot ((hi + lo) / 2) f lo hi brent with
-  | error e => simp [hs] at h
-  | ok kr =>
-    obtain ⟨kind, r⟩ := kr
-    simp only [hs] at h
-    cases kind <;> simp only at h <;> injection h with h <;> subst h <;> exact ⟨rfl, _, rfl⟩
+      ∃ kind, solveRoot ((hi + lo) / 2) f lo hi brent = .ok (kind, st'.H) :=
+  size_simAt f lo hi its brent st st' h
 
 /-- The summary's borehole count is the number of bore-field rows, total drilling is count × height
     and the active length is the height — all read from the same live state. -/
